@@ -508,3 +508,54 @@ class CInterp:
             return ret.value
         finally:
             self.depth -= 1
+
+
+# ---------------------------------------------------------------------------
+# helpers for NumPy straight-line code
+# ---------------------------------------------------------------------------
+class _StripBroadcast(ast.NodeTransformer):
+    """x[:, None], x[None, :], x[None] -> x (pure broadcasting subscripts)."""
+    def visit_Subscript(self, node):
+        self.generic_visit(node)
+        sl = node.slice
+        elts = sl.elts if isinstance(sl, ast.Tuple) else [sl]
+        def trivial(e):
+            return (isinstance(e, ast.Slice) and e.lower is None and e.upper is None and e.step is None) or \
+                   (isinstance(e, ast.Constant) and e.value is None)
+        if all(trivial(e) for e in elts):
+            return node.value
+        return node
+
+
+def strip_broadcast(node):
+    import copy
+    return _StripBroadcast().visit(copy.deepcopy(node))
+
+
+def straightline_env(stmts, env=None, funcs=None, stop=None):
+    """Evaluate simple `name = expr` statements in order into a symbolic environment.
+    Tuple unpacking of a tuple display binds element-wise; anything else binds fresh symbols."""
+    env = dict(env or {})
+    for st in stmts:
+        if stop is not None and st is stop:
+            break
+        if isinstance(st, ast.Assign) and len(st.targets) == 1:
+            t = st.targets[0]
+            if isinstance(t, ast.Name):
+                try:
+                    env[t.id] = py_expr(strip_broadcast(st.value), env, funcs)
+                except AnalysisError:
+                    env[t.id] = sym(t.id)
+            elif isinstance(t, ast.Tuple) and isinstance(st.value, ast.Tuple) and len(t.elts) == len(st.value.elts):
+                vals = [py_expr(strip_broadcast(v), env, funcs) for v in st.value.elts]
+                for e, v in zip(t.elts, vals):
+                    if isinstance(e, ast.Name):
+                        env[e.id] = v
+            elif isinstance(t, ast.Tuple):
+                for e in t.elts:
+                    if isinstance(e, ast.Name):
+                        env[e.id] = sym(e.id)
+        elif isinstance(st, ast.Try):
+            # the `try: a, b = x / except TypeError: a = b = x` idiom: take the try body
+            env = straightline_env(st.body, env, funcs, stop)
+    return env
